@@ -51,3 +51,80 @@ impl DynDigest for Rec {
     }
 }
 
+
+mod u09_tags {
+    use crate::types::{KeyVersion, Tag};
+
+    /// U09 (C05/C17): packet type id <-> Tag is a bijection on all 256 octets, the classes are
+    /// the RFC 9580 section 5 ranges, and `encode` sets bits 7,6 over the 6-bit id.
+    /// Complete: loop-free over every u8.
+    #[kani::proof]
+    fn u09_tag_roundtrip_all_octets() {
+        let v: u8 = kani::any();
+        let t = Tag::from(v);
+        assert!(u8::from(t) == v, "u8::from(Tag::from(v)) != v");
+        match t {
+            Tag::Invalid(_) => assert!(v == 0 || v == 15 || v == 16 || v >= 64),
+            Tag::UnassignedCritical(_) => assert!(v >= 22 && v <= 39),
+            Tag::UnassignedNonCritical(_) => assert!(v >= 40 && v <= 59),
+            Tag::Experimental(_) => assert!(v >= 60 && v <= 63),
+            Tag::PublicKeyEncryptedSessionKey => assert!(v == 1),
+            Tag::Signature => assert!(v == 2),
+            Tag::SymKeyEncryptedSessionKey => assert!(v == 3),
+            Tag::OnePassSignature => assert!(v == 4),
+            Tag::SecretKey => assert!(v == 5),
+            Tag::PublicKey => assert!(v == 6),
+            Tag::SecretSubkey => assert!(v == 7),
+            Tag::CompressedData => assert!(v == 8),
+            Tag::SymEncryptedData => assert!(v == 9),
+            Tag::Marker => assert!(v == 10),
+            Tag::LiteralData => assert!(v == 11),
+            Tag::Trust => assert!(v == 12),
+            Tag::UserId => assert!(v == 13),
+            Tag::PublicSubkey => assert!(v == 14),
+            Tag::UserAttribute => assert!(v == 17),
+            Tag::SymEncryptedProtectedData => assert!(v == 18),
+            Tag::ModDetectionCode => assert!(v == 19),
+            Tag::GnupgAeadData => assert!(v == 20),
+            Tag::Padding => assert!(v == 21),
+            #[allow(unreachable_patterns)]
+            _ => {}
+        }
+        if v < 64 {
+            assert!(t.encode() == (0xC0 | v), "encode() is not 0b11 || id");
+        }
+        kani::cover!(v == 63);
+    }
+
+    /// the range newtypes accept exactly their documented ranges
+    #[kani::proof]
+    fn u09_tag_newtype_ranges() {
+        use crate::types::{ExperimentalTag, InvalidTag, UnassignedCriticalTag, UnassignedNonCriticalTag};
+        let v: u8 = kani::any();
+        assert!(UnassignedCriticalTag::new(v).is_some() == (v >= 22 && v <= 39));
+        assert!(UnassignedNonCriticalTag::new(v).is_some() == (v >= 40 && v <= 59));
+        assert!(ExperimentalTag::new(v).is_some() == (v >= 60 && v <= 63));
+        assert!(InvalidTag::new(v).is_some() == (v == 0 || v == 15 || v == 16 || v >= 64));
+        if let Some(t) = UnassignedCriticalTag::new(v) {
+            assert!(u8::from(t) == v);
+        }
+        kani::cover!(v == 22);
+    }
+
+    /// key version octet round trip (num_enum derive with catch-all)
+    #[kani::proof]
+    fn u09_key_version_roundtrip() {
+        let v: u8 = kani::any();
+        let k = KeyVersion::from(v);
+        assert!(u8::from(k) == v);
+        match k {
+            KeyVersion::V2 => assert!(v == 2),
+            KeyVersion::V3 => assert!(v == 3),
+            KeyVersion::V4 => assert!(v == 4),
+            KeyVersion::V5 => assert!(v == 5),
+            KeyVersion::V6 => assert!(v == 6),
+            KeyVersion::Other(_) => assert!(v < 2 || v > 6),
+        }
+        kani::cover!(v == 6);
+    }
+}
